@@ -6,7 +6,7 @@
 (*   gnp_arg     a call with p outside (0,1)                               *)
 (*   gnp_skips   one run together with the skip sequence the library drew; *)
 (*               replayed through GnpRules!Run  (binding of the model)     *)
-(*   complete    complete_graph(n, directed)                               *)
+(*   complete    complete_graph(n, directed); complete_big: counts only     *)
 (*   karate      karate_club_graph()                                       *)
 (* The statistical thresholds are held here; the harness only logs integer *)
 (* totals and the excess over the allowance in thousandths of a standard   *)
@@ -55,6 +55,16 @@ CompleteChecks(e) ==
          /\ Len(e.r.edges) = Cardinality(CompleteEdges(e.n, e.directed))>>,
     <<"kind", e.r.e = "" => (e.r.directed = e.directed /\ ~e.r.multi /\ e.r.loops = 0)>>>>
 
+(* large n: the harness logs counts instead of the edge list.  m pairwise distinct non-loop pairs over 0..n-1 *)
+(* with m the number of all such pairs are all of them, each once                                            *)
+CompleteBigChecks(e) ==
+  <<<<"succeeds", e.r.e = "">>,
+    <<"nodes", e.r.e = "" => e.r.nodes_ok>>,
+    <<"edges", e.r.e = "" =>
+         /\ e.r.loops = 0 /\ e.r.repeats = 0 /\ e.r.out_of_range = 0
+         /\ e.r.m = IF e.directed THEN e.n * (e.n - 1) ELSE (e.n * (e.n - 1)) \div 2>>,
+    <<"kind", e.r.e = "" => (e.r.directed = e.directed /\ ~e.r.multi)>>>>
+
 KarateChecks(e) ==
   <<<<"karate", /\ e.r.e = "" /\ e.r.nodes_ok /\ e.r.m = KarateEdges
                 /\ ~e.r.directed /\ ~e.r.multi /\ e.r.loops = 0 /\ e.r.repeats = 0 /\ e.r.out_of_range = 0>>>>
@@ -65,6 +75,7 @@ Consume(e) ==
     [] e.op.k = "gnp_arg" -> Report(e, "gnp_arg", ArgChecks(e))
     [] e.op.k = "gnp_skips" -> Report(e, "binding", SkipChecks(e))
     [] e.op.k = "complete" -> Report(e, "complete", CompleteChecks(e))
+    [] e.op.k = "complete_big" -> Report(e, "complete", CompleteBigChecks(e))
     [] e.op.k = "karate" -> Report(e, "karate", KarateChecks(e))
     [] OTHER -> PrintT("NONCONF " \o ToString(e.id) \o " unknown {}")
 
